@@ -450,6 +450,14 @@ inline Board synth_raw(Rng& rng, int t)
         if (rng.chance(0.3)) put(b, 57, orc::make_pc(rng.below(2), orc::KNIGHT));
         if (rng.chance(0.15)) put(b, rng.below(8), orc::make_pc(orc::WHITE, orc::BISHOP));
         if (rng.chance(0.15)) put(b, 56 + rng.below(8), orc::make_pc(orc::BLACK, orc::BISHOP));
+        // an enemy piece right next to the mover's king on its back rank: the king may capture it (e1d1 / e1f1 with the
+        // castling rights still intact: a king move along the back rank that is NOT castling)
+        if (rng.chance(0.25))
+        {
+            static const int KINDS[] = {orc::ROOK, orc::ROOK, orc::QUEEN, orc::BISHOP, orc::KNIGHT};
+            int ksq = us == orc::WHITE ? 4 : 60;
+            b.sq[ksq + (rng.below(2) ? 1 : -1)] = orc::make_pc(them, KINDS[rng.below(5)]);
+        }
         sprinkle(rng, b, rng.below(8));
         b.castle = 0;
         if (b.sq[7] == orc::WR && rng.chance(0.9)) b.castle |= orc::CK;
@@ -533,6 +541,68 @@ inline Board synth(Rng& rng, int t, long* rejected = nullptr)
         if (b.king_sq(orc::WHITE) >= 0 && b.king_sq(orc::BLACK) >= 0 && b.retro_legal() && promotions_stay_in_domain(b)) return b;
         if (rejected) ++*rejected;
     }
+}
+
+// A rook captured on its home corner while its castling right is still intact: by a promoting pawn from the neighbouring
+// file (half of the cases), by a slider or by a knight. `first` is the capture. What follows (the right is gone for good, so
+// later positions are new positions for the repetition count and the key) is the caller's business.
+inline bool corner_rook_capture(Rng& rng, Board& out, Move& first, int max_tries = 3000)
+{
+    for (int t = 0; t < max_tries; ++t)
+    {
+        Board b;
+        b.stm = rng.below(2);
+        b.halfmove = rng.below(30);
+        b.fullmove = 1 + rng.below(60);
+        int us = b.stm, them = 1 - us;
+        int hr = them == orc::WHITE ? 0 : 7, r7 = them == orc::WHITE ? 1 : 6;
+        b.sq[orc::sq_of(4, hr)] = orc::make_pc(them, orc::KING);
+        bool kside = rng.below(2);
+        int corner = orc::sq_of(kside ? 7 : 0, hr);
+        b.sq[corner] = orc::make_pc(them, orc::ROOK);
+        if (rng.below(2)) b.sq[orc::sq_of(kside ? 0 : 7, hr)] = orc::make_pc(them, orc::ROOK);
+        int mode = rng.below(4);
+        if (mode <= 1) b.sq[orc::sq_of(kside ? 6 : 1, r7)] = orc::make_pc(us, orc::PAWN);
+        else if (mode == 2)
+        {
+            int di = rng.below(8);
+            std::vector<int> r = ray(corner, DIRS[di][0], DIRS[di][1]);
+            if (r.size() < 2) continue;
+            put(b, r[1 + rng.below(uint32_t(r.size() - 1))], slider_for(rng, us, di, 0.0));
+        }
+        else
+        {
+            static const int KJ[8][2] = {{1, 2}, {2, 1}, {-1, 2}, {-2, 1}, {1, -2}, {2, -1}, {-1, -2}, {-2, -1}};
+            int j = rng.below(8);
+            int f = orc::file_of(corner) + KJ[j][0], r = orc::rank_of(corner) + KJ[j][1];
+            if (!orc::on_board(f, r)) continue;
+            put(b, orc::sq_of(f, r), orc::make_pc(us, orc::KNIGHT));
+        }
+        // our own king at home with rights now and then, so that both sides have something to lose
+        if (rng.below(3) == 0 && put(b, orc::sq_of(4, 7 - hr), orc::make_pc(us, orc::KING)))
+        {
+            if (rng.below(2)) put(b, orc::sq_of(7, 7 - hr), orc::make_pc(us, orc::ROOK));
+            if (rng.below(2)) put(b, orc::sq_of(0, 7 - hr), orc::make_pc(us, orc::ROOK));
+        }
+        put_kings(rng, b);
+        sprinkle(rng, b, rng.below(7));
+        b.castle = 0;
+        if (b.sq[4] == orc::WK && b.sq[7] == orc::WR) b.castle |= orc::CK;
+        if (b.sq[4] == orc::WK && b.sq[0] == orc::WR) b.castle |= orc::CQ;
+        if (b.sq[60] == orc::BK && b.sq[63] == orc::BR) b.castle |= orc::Ck;
+        if (b.sq[60] == orc::BK && b.sq[56] == orc::BR) b.castle |= orc::Cq;
+        if (!b.retro_legal() || !promotions_stay_in_domain(b)) continue;
+        std::vector<Move> caps;
+        for (const Move& m : b.legal())
+            if (m.to == corner) caps.push_back(m);
+        if (caps.empty()) continue;
+        first = caps[rng.below(uint32_t(caps.size()))];
+        Board n = b.after(first);
+        if (!n.has_legal()) continue;
+        out = b;
+        return true;
+    }
+    return false;
 }
 
 // A double push that gives check with the pawn itself where capturing it en passant is the ONLY legal reply
